@@ -630,6 +630,11 @@ def make_case(seed, idx, tier):
                 return dict(corpus=name), o, text, raw, rnd
             except UnicodeDecodeError:
                 pass
+    if idx % 6 == 4:
+        # an election solved for numeric coincidences (totals exactly on the quota, zero surpluses, one-unit transfers)
+        e, o = gen.gen_coincidence(rnd, rule)
+        text = gen.render_blt(e, rnd)
+        return e, o, text, gen.encode_blt(text, rnd), rnd
     r = rnd.random()
     xlarge = r > (0.985 if tier == 'quick' else 0.96)       # 20-30 candidates, 40-120 ballot lines
     large = (not xlarge) and r > (0.94 if tier == 'quick' else 0.85)
@@ -660,7 +665,56 @@ def probe_case(R, seed, idx, tier):
     for sid, c in counts.items():
         s_ = ref['site_list'][sid]
         hits["%s:%d" % (s_[0], s_[2])] = c
-    return dict(idx=idx, ok=True, why=None, T=ref['T'], lines=frozenset(hits), hits=hits)
+    return dict(idx=idx, ok=True, why=None, T=ref['T'], lines=frozenset(hits), hits=hits,
+                coin=coincidence_features(ref['actions'], o.get('rule')))
+
+
+def coincidence_features(actions, rule):
+    """numeric coincidences visible in the canonical actions of a reference count (for pool selection only, never an
+    oracle): a candidate's vote exactly on / one raw unit off the quota, two consecutive actions showing the same
+    candidate state, equal votes among hopefuls, a transfer that moved nothing."""
+    feats = set()
+    prev = None
+    for s_ in actions:
+        try:
+            a = json.loads(s_)
+        except ValueError:
+            continue
+        if not isinstance(a, dict) or 's:cstate' not in a:
+            continue
+        tag = a.get('s:tag')
+        q = a.get('s:quota')
+        cs = a.get('s:cstate') or {}
+        try:
+            qv = q[1] if isinstance(q, list) and q[0] in ('F', 'G') else None
+            votes = {}
+            for cid, st in cs.items():
+                v = st.get('s:vote')
+                if isinstance(v, list) and v[0] in ('F', 'G') and isinstance(v[1], int):
+                    votes[cid] = (v[1], st.get('s:code'))
+            if isinstance(qv, int):
+                for cid, (v, code) in votes.items():
+                    d = v - qv
+                    if d == 0:
+                        feats.add(('on-quota', rule, tag, code))
+                    elif abs(d) == 1:
+                        feats.add(('off-by-one-unit', rule, tag, code, d))
+            hv = sorted(v for v, code in votes.values() if code == 'H')
+            if len(hv) >= 2 and tag in ('round', 'defeat', 'elect', 'tie'):
+                if hv[0] == hv[1]:
+                    feats.add(('lowest-tied', rule, tag))
+                if hv[-1] == hv[-2]:
+                    feats.add(('highest-tied', rule, tag))
+            key = (json.dumps(cs, sort_keys=True), json.dumps(a.get('s:votes')))
+            if prev is not None and prev[1] == key:
+                feats.add(('same-state', rule, prev[0], tag))
+            prev = (tag, key)
+            m_ = str(a.get('s:msg', ''))
+            if tag == 'transfer' and m_.rstrip(')').rstrip('0').rstrip('.').endswith('(0') or m_.endswith('(0)'):
+                feats.add(('transfer-of-zero', rule))
+        except Exception:       # pylint: disable=broad-except
+            continue
+    return feats
 
 
 def _bucket(c):
@@ -678,7 +732,7 @@ def _bucket(c):
     return 128
 
 
-def select_cases(probes, n, novel_share=0.34, t_cap=200_000):
+def select_cases(probes, n, novel_share=0.3, t_cap=200_000, coin_share=0.15):
     """choose n case indices out of the probed pool: first those whose count executes package lines no earlier
     candidate executed (rare rule branches: stable states, zero batches, ties broken ...), at most novel_share*n of
     them; then the earliest remaining indices.  Deterministic: depends only on the probes, in index order."""
@@ -700,8 +754,20 @@ def select_cases(probes, n, novel_share=0.34, t_cap=200_000):
             if p['idx'] >= n:           # the first n are taken anyway
                 novel.append(p['idx'])
     novel = novel[:int(n * novel_share)]
-    rest = [p['idx'] for p in probes if p['idx'] not in set(novel)][:n - len(novel)]
-    return sorted(rest + novel), novel
+    # numeric coincidences (a vote exactly on the quota, a transfer that changes nothing, ties): cases that show a
+    # coincidence feature no earlier candidate showed, at most coin_share*n of them
+    seen_c = set()
+    coin = []
+    for p in okp:
+        fc = p.get('coin') or set()
+        if fc - seen_c:
+            seen_c |= fc
+            if p['idx'] >= n and p['idx'] not in novel:
+                coin.append(p['idx'])
+    coin = coin[:int(n * coin_share)]
+    extra = set(novel) | set(coin)
+    rest = [p['idx'] for p in probes if p['idx'] not in extra][:n - len(extra)]
+    return sorted(set(rest) | extra), novel + coin
 
 
 def _same_ref(a, b):
